@@ -1,7 +1,7 @@
 #!/usr/bin/env python3
 """Prints the instructions handed to an independent sub-agent that is asked for a breaking change
 (section 9 of DESIGN.md): the property text from properties.jsonl, a scratch worktree, nothing
-from /verif. Usage: tools/seed_prompt.py <ID> [<worktree>]"""
+from /verif. Usage: tools/seed_prompt.py <ID> [<worktree> [<what earlier reviewers already proposed>]]"""
 import json
 import os
 import sys
@@ -15,6 +15,15 @@ HINTS = {
     "C11": ("astria-sequencer-relayer", "a crash at a particular instant (between two state-file writes, while a BlobTx is in flight with a particular outcome: lost, pending, confirmed, timed out), a particular sequence of restarts, a particular block arrival pattern"),
     "C14": ("astria-sequencer", "a particular sequence of validator updates (several in one block, remove-then-add or update-then-remove of the same key within a block, a repeated key, a particular power), or a block right at or across the upgrade that changed validator storage"),
     "C15": ("astria-sequencer", "a particular voting-power distribution (a total of a particular residue mod 3, very large powers), a particular subset / duplication / forgery of vote extensions, a particular price vector (extreme or negative-looking values, an even number of reports, many pairs)"),
+    "C01": ("astria-sequencer", "a particular multi-step sequence (a fee change followed by its use, a self-transfer, a bridge transfer between two bridges), an unusual input (a boundary amount, a particular asset / fee-asset combination, a particular action mix in one transaction)"),
+    "C03": ("astria-sequencer", "a particular transaction shape (a multi-action bundle failing at a late action after earlier actions wrote state, fees, deposits or events), a particular nonce situation (replay of an included transaction, a gap, two transactions of one signer in a block)"),
+    "C13": ("astria-sequencer", "a particular interleaving of insertions / removals / maintenance (a promotion right after a demotion, a removal of a parked transaction while a lower nonce is pending, re-costing when balances of two assets matter, an expiry racing a promotion), particular limits"),
+    "C18": ("astria-sequencer", "a particular multi-step sequence (withdraw over one channel and return over another, a refund after a partial return, a second channel, a timeout of a bridge withdrawal), an unusual input (a denom with several trace segments, an ibc/ prefixed denom, a compat-prefixed address, a particular memo)"),
+    "C09": ("astria-conductor", "a particular voting-power distribution, a particular mix of vote kinds in the commit, a particular sequence of Celestia heights (the verifier caches results), a particular combination of blobs"),
+    "C10": ("astria-conductor", "a particular delivery schedule of soft and firm blocks (gaps, duplicates, firm overtaking soft, restarts of the execution session), a particular commitment state reported by the rollup"),
+    "C12": ("astria-sequencer-relayer", "a particular sequence of block sizes around the blob size limits, a particular rollup filter, empty blocks between full ones"),
+    "C16": ("astria-composer", "a particular sequence of transaction sizes around the bundle limit, a particular interleaving of pushes, pops and flushes, a full finished queue"),
+    "C08": ("astria-merkle", "a particular tree shape (a size that is a power of two plus one, a single leaf, the last leaf of an unbalanced tree), a particular leaf content (the size of a node hash, two concatenated hashes), a proof with a boundary index or size"),
     "C17": ("astria-core, astria-merkle, astria-conductor or astria-sequencer", "a particular malformed input (a missing optional field, a length or index at a boundary, a particular field combination, a value such as 0 or 2^63 in a size or index field) that now panics or is accepted although the re-encoded value no longer passes the type's own checks"),
 }
 
@@ -24,6 +33,9 @@ def main():
     wt = sys.argv[2] if len(sys.argv) > 2 else f"/tmp/wt-{pid.lower()}"
     prop = next(json.loads(l) for l in open(os.path.join(ROOT, "properties.jsonl")) if json.loads(l)["id"] == pid)
     crate, hint = HINTS.get(pid, ("the affected crate", "a particular multi-step sequence, an unusual input, or two cooperating sites"))
+    avoid = sys.argv[3] if len(sys.argv) > 3 else ""
+    if avoid:
+        avoid = f" Earlier reviewers already proposed the following; pick a different part of the code and a different mechanism: {avoid}"
     print(f"""You are a careful adversarial reviewer of the astria monorepo (Rust). You have your own scratch git worktree of the repository at {wt} (work ONLY there; never touch /repo, never read or touch /verif). The sandbox is offline: use `cargo ... --offline`; nothing can be downloaded. Use your own build directory and limit parallelism because other people share this machine: `export CARGO_TARGET_DIR={wt}/target CARGO_BUILD_JOBS=6` (a cold build of a service crate's tests takes 10+ minutes; build only what you need, e.g. `cargo test -p <crate> --offline --lib <filter>`; `cargo nextest run -p <crate> --offline` is what the project's baseline uses). Ignore everything behind the cargo feature `verif` (files named verif.rs / verif_hooks.rs): it is off by default, do not modify it and do not rely on it.
 
 Here is a semantic property the code base is supposed to satisfy:
@@ -38,7 +50,7 @@ Quantifier: {prop['quantifier']['text'] if isinstance(prop['quantifier'], dict) 
 Anchored in: {', '.join(prop['anchors']['files'] if isinstance(prop['anchors'], dict) else prop['anchors'])}
 ---
 
-Your task: produce ONE realistic change to the production code (likely in {crate}; a plausible refactoring slip, optimisation, or "simplification" a developer could make; a few lines, not test code) that BREAKS this property while (a) the workspace still compiles and (b) the existing test suite of the affected crate still passes unchanged (run it and show the summary line; a few timing-dependent blackbox tests are flaky under load, they do not matter). The breakage must need something specific to manifest - {hint}, or two cooperating sites that each look fine alone - NOT something that ordinary use or the existing tests would expose at once. Prefer a semantic effect over a crash unless the property is about crashes.
+Your task: produce ONE realistic change to the production code (likely in {crate}; a plausible refactoring slip, optimisation, or "simplification" a developer could make; a few lines, not test code) that BREAKS this property while (a) the workspace still compiles and (b) the existing test suite of the affected crate still passes unchanged (run it and show the summary line; a few timing-dependent blackbox tests are flaky under load, they do not matter). The breakage must need something specific to manifest - {hint}, or two cooperating sites that each look fine alone - NOT something that ordinary use or the existing tests would expose at once. Prefer a semantic effect over a crash unless the property is about crashes.{avoid}
 
 Also write a demonstration: a small Rust test (a new #[test] in a new file or test module, kept separate from the production change) that FAILS with your change and PASSES without it. Verify both directions yourself (reverse-apply the production change to check the demonstration passes on the original code).
 
